@@ -117,7 +117,8 @@ def check_case(exprs, inp, seg, cer, via):
 
 
 def _inputs(n):
-    return [None, ""] + [QUALS[i] if i < len(QUALS) else f"Q{i}" for i in range(n)] + ["ZZ9"]
+    # foreign values incl. substrings of single qualifiers and of the comma-joined list of qualifiers
+    return [None, ""] + [QUALS[i] if i < len(QUALS) else f"Q{i}" for i in range(n)] + ["ZZ9", "E0", "0", "01, Z02", ", ", "e01"]
 
 
 def run_item(item):
